@@ -44,6 +44,10 @@ func genC10(seed uint64, tier string) *Plan {
 			if l > 800 {
 				l = 800
 			}
+			if r.Chance(0.04) {
+				// a record around or above the 64 KiB copy buffer of the upgrade
+				l = 65400 + r.Intn(300)
+			}
 			p.Ops = append(p.Ops, Op{K: "put", Key: r.Intn(nk), VSeq: vseq, VLen: l, A: r.Intn(3)}) // A: how the superseded record dies
 		} else {
 			p.Ops = append(p.Ops, Op{K: "remove", Key: r.Intn(nk), A: r.Intn(3)})
